@@ -10,7 +10,7 @@
     one of the code's own error values. *)
 From Coq Require Import List NArith.
 From MOC.Base Require Import RangeSet.
-From MOC.Model Require Import Qty Query Build Repr TextValid FitsGuards AsciiCodec AsciiProofs FitsCodec FitsProofs.
+From MOC.Model Require Import Qty Query Build Repr TextValid FitsGuards AsciiCodec AsciiProofs FitsCodec FitsProofs JsonCodec JsonProofs JsonMoc.
 From Coq Require Import Permutation Sorted.
 Import ListNotations.
 Open Scope N_scope.
@@ -52,6 +52,16 @@ Theorem C12_ascii_accepts_only_valid : forall (sortf : qty -> list aelem -> list
   dm <= max_depth q w /\ Forall (elem_wf q dm) l /\ asc 0 (map (erange q w) l).
 Proof. exact reader_sound. Qed.
 
+(** the same for the JSON reader: whatever the characters (inside the JSON subset of the model, where the
+    parse is determined), a document from_json_aladin accepts is a list of cells of depth <= the returned
+    depth <= MAX_DEPTH, inside their domain, ascending and pairwise disjoint *)
+Theorem C12_json_accepts_only_valid : forall (sortf : qty -> list aelem -> list aelem),
+  (forall q l, Permutation (sortf q l) l) ->
+  (forall q l, Sorted (fun a b => flat_leb q a b = true) (sortf q l)) ->
+  forall q w s dm l, from_json sortf q w s = JRRes (AOk (dm, l)) ->
+  dm <= max_depth q w /\ Forall (elem_wf q dm) l /\ asc 0 (map (erange q w) l).
+Proof. exact json_reader_sound. Qed.
+
 Example C12_nonvacuous :
   text_accept Hpx 64 [(0, (0, 12))] = true /\ text_accept Hpx 64 [(0, (0, 13))] = false /\
   text_accept Hpx 64 [(0, (12, 13))] = false /\ text_accept Hpx 64 [(1, (5, 3))] = false /\
@@ -87,3 +97,4 @@ Print Assumptions C12_fits_reader_total.
 Print Assumptions C12_ascii_accepts_only_valid.
 Print Assumptions C12_mom_reader_total.
 Print Assumptions C12_skymap_reader_total.
+Print Assumptions C12_json_accepts_only_valid.
